@@ -7,7 +7,7 @@
      skipspec   (0) none | (1 (pid ...)) by PID set | (2 cc) by counter | (3) PUSI packets | (4 seed) pseudo-random
                 per packet | (5) all | (6) packets with an adaptation field
      parserspec (0) none | (1) observer | (2 (pid ...)) replacer on a PID set | (3 (pid ...)) failing on a PID set | (4) replacer
-     ops        0 NextPacket | 1 NextData | 2 Rewind | 3 NextData until nomore (at most cap calls) | 4 NextPacket until nomore
+     ops        0 NextPacket | 1 NextData | 2 Rewind | 3 NextData until nomore or the injected reader failure (at most cap calls) | 4 NextPacket likewise
    observation = (results final-state groups consulted) *)
 From Coq Require Import ZArith List Bool.
 Require Import Base.Tok Base.Iter Gen.Types Gen.Consts Model.Packet Model.Pool Model.Reader Model.Demux Extract.RunBase.
@@ -87,7 +87,7 @@ Section Run.
         let '(r, s') := next_data P prs skip s in
         let acc' := acc ++ [TL [tok_of_res tok_of_DemuxerData r; pos_tok s']] in
         match r with
-        | Err c => if c =? E_nomore then (acc', s') else repeat_data k prs skip s' acc'
+        | Err c => if (c =? E_nomore) || (c =? E_injected) then (acc', s') else repeat_data k prs skip s' acc'
         | Panic => (acc', s')
         | Ok _ => repeat_data k prs skip s' acc'
         end
@@ -100,7 +100,7 @@ Section Run.
         let '(r, s') := next_packet skip s in
         let acc' := acc ++ [TL [tok_of_res tok_of_Packet r; pos_tok s']] in
         match r with
-        | Err c => if c =? E_nomore then (acc', s') else repeat_packet k skip s' acc'
+        | Err c => if (c =? E_nomore) || (c =? E_injected) then (acc', s') else repeat_packet k skip s' acc'
         | Panic => (acc', s')
         | Ok _ => repeat_packet k skip s' acc'
         end
@@ -132,7 +132,7 @@ Section Run.
     let prs := parser_of (tnth 5 t) in
     let data := tB (tnth 6 t) in
     let ops := to_list tI (tnth 7 t) in
-    let r := mk_reader data 0 (if fault <? 0 then None else Some fault) kind in
+    let r := new_reader data (if fault <? 0 then None else Some fault) kind in
     let '(out, s) := run_ops ops prs skip (cap_of data) (init_dstate r opt_size) [] in
     TL [TL out; state_tok s;
         (if tI (tnth 0 (tnth 5 t)) =? 0 then TL [] else TL (map (fun g => TL (map tok_of_pkt_summary g)) (d_groups s)));
